@@ -1,4 +1,5 @@
 #!/bin/bash
+mkdir -p /tmp/seed   # lock files of the helper scripts live here (not used by any registered command)
 # Run the repository's pinned baseline (guard off) and re-run failures once, alone, to separate
 # load-induced flakiness from real regressions. Usage: tools/baseline.sh <logfile>
 LOG=${1:-/verif/build/baseline.log}
